@@ -9,6 +9,7 @@ import Mathlib.Analysis.SpecialFunctions.Log.Deriv
 import Mathlib.Data.Matrix.Mul
 import Mathlib.Tactic.Ring
 import Mathlib.Tactic.FieldSimp
+import Mathlib.Tactic.Abel
 /-
   "`g` is the gradient of `m` at `x`": the Fréchet derivative of `m` at `x` is the linear form
   `v ↦ Σᵢ gᵢ vᵢ`. Closure under the combinators of hmclab's distribution algebra
@@ -102,7 +103,37 @@ theorem scomp (h : IsGradAt m g x) (φ : ℝ → ℝ) (φ' : ℝ) (hφ : HasDeri
   unfold IsGradAt; rw [gradL_smul]
   exact hφ.comp_hasFDerivAt x h
 
+theorem neg (h : IsGradAt m g x) : IsGradAt (fun y => -m y) (-g) x := by
+  have := h.const_mul (-1)
+  have e1 : (fun y => -1 * m y) = fun y => -m y := by funext y; ring
+  have e2 : (-1 : ℝ) • g = -g := by simp
+  rwa [e1, e2] at this
+
+theorem sub (h₁ : IsGradAt m₁ g₁ x) (h₂ : IsGradAt m₂ g₂ x) :
+    IsGradAt (fun y => m₁ y - m₂ y) (g₁ - g₂) x := by
+  have := h₁.add h₂.neg
+  have e1 : (fun y => m₁ y + -m₂ y) = fun y => m₁ y - m₂ y := by funext y; ring
+  have e2 : g₁ + -g₂ = g₁ - g₂ := by abel
+  rwa [e1, e2] at this
+
+/-- product rule -/
+theorem mul (h₁ : IsGradAt m₁ g₁ x) (h₂ : IsGradAt m₂ g₂ x) :
+    IsGradAt (fun y => m₁ y * m₂ y) (m₁ x • g₂ + m₂ x • g₁) x := by
+  unfold IsGradAt at *
+  have := HasFDerivAt.mul h₁ h₂
+  rw [gradL_add, gradL_smul, gradL_smul]
+  exact this
+
 end IsGradAt
+
+/-- a coordinate function has gradient the corresponding unit vector -/
+theorem isGradAt_coord [DecidableEq ι] (i : ι) (x : ι → ℝ) : IsGradAt (fun y : ι → ℝ => y i) (Pi.single i 1) x := by
+  unfold IsGradAt
+  have : gradL (Pi.single i (1:ℝ)) = (ContinuousLinearMap.proj i : (ι → ℝ) →L[ℝ] ℝ) := by
+    ext v
+    simp [gradL_apply, Pi.single_apply]
+  rw [this]
+  exact hasFDerivAt_apply i x
 
 /-- separable sums: `m x = Σᵢ φᵢ (xᵢ)` has gradient `(φᵢ' (xᵢ))ᵢ` -/
 theorem isGradAt_separable (φ : ι → ℝ → ℝ) (φ' : ι → ℝ) (x : ι → ℝ)
